@@ -106,6 +106,12 @@ Theorem C15_decoded_records_name_stored_terms : forall icf input o, decode icf i
   forall k r d, In r (o_records k o) -> In d (a_hpos r) -> In d (ar_keys (o_arena o)).
 Proof. exact decode_records_closed. Qed.
 
+(* ... and on the term side: every gene / disease id a term of such an ontology carries has a record - again for
+   EVERY byte string (ids may repeat, the parent section may name anything) *)
+Theorem C15_decoded_terms_carry_recorded_ids : forall icf input o, decode icf input = Ok o ->
+  forall k t g, In t (ar_terms (o_arena o)) -> In g (t_annots k t) -> In g (map a_id (o_records k o)).
+Proof. exact decode_terms_closed. Qed.
+
 Print Assumptions C15_referentially_closed.
 Print Assumptions C15_same_observation.
 Print Assumptions C15_model_failed_add_parent_no_trace.
@@ -121,3 +127,4 @@ Print Assumptions C15_annotate_on_stored_term_succeeds.
 Print Assumptions C15_annotate_on_absent_term_is_rejected.
 Print Assumptions C15_builder_scripts_run_to_the_end.
 Print Assumptions C15_decoded_records_name_stored_terms.
+Print Assumptions C15_decoded_terms_carry_recorded_ids.
